@@ -1,4 +1,6 @@
-"""Translation tie (second model-code tie, by TRANSLATION; properties C17, C03, C13).
+"""Translation tie (second model-code tie, by TRANSLATION; properties C17, C03, C13 and — task R1 — C04 (`oddpos_dag`), C05
+(`calc_fuse_group_info`, `replace_with_seq`, `AbelianArray.is_valid_sector`), C06 (`dicts_dont_conflict`), C16
+(`get_u1_charges`), C19 (the coordination counting of `ham_*_from_edges`)).
 
 `run_tie(ctx, functions)`:
   1. regenerates lean/SymmModel/Gen/Src.lean from $SYMMRAY_REPO with harness/translate.py (rewritten on
@@ -18,7 +20,10 @@ Gen definition and the model function are evaluated in Lean (`lake env lean --ru
 is evaluated here; `ctx.violation` is raised only when an independent oracle of the PROPERTY confirms that
 the real code is wrong on that input (C17: `valid/combine/sign/parity` against the group-law oracle of
 harness/props/c17.py; C03: Koszul sign against the parity of the number of reversed odd pairs;
-C13: `argsort` must list the positions by non-decreasing value).
+C13: `argsort` must list the positions by non-decreasing value; C05: the fuse plan stated with sets and
+comprehensions, the replaced tuple, the signed charge sum; C06: no common key with different values; C16: the n
+charges closest to the origin, positive first; C19: coordination = degree, observed through the coordinations the
+real `ham_*_from_edges` hands to its local-term builder).
 """
 
 import fcntl
@@ -69,10 +74,49 @@ GROUPS = {
         theorems=[_G + n for n in ("argsort_eq", "permuted_eq", "without_eq", "accum_for_split_eq",
                                    "accum_for_split_starts")],
     ),
+    # ---- task R1
+    "C05": dict(
+        module="SymmModel.Gen.TieFuse",
+        functions=["calc_fuse_group_info"],
+        theorems=[_G + n for n in ("calc_fuse_group_info_eq", "calc_fuse_group_info_new_ndim", "cfgi_unfold",
+                                   "pyMin_groups", "pyRange2_ofNat", "isNoneAt_dict1", "isNoneAt_loop2")],
+    ),
+    "C05b": dict(
+        module="SymmModel.Gen.TieDict",
+        functions=["replace_with_seq", "AbelianArray.is_valid_sector"],
+        theorems=[_G + n for n in ("replace_with_seq_eq", "is_valid_sector_generic", "is_valid_sector_eq",
+                                   "is_valid_sector_eq_raw")],
+    ),
+    "C06": dict(
+        module="SymmModel.Gen.TieDict",
+        functions=["dicts_dont_conflict"],
+        theorems=[_G + n for n in ("dicts_dont_conflict_eq", "dicts_dont_conflict_eq_cmAgree", "dicts_dont_conflict_symm",
+                                   "pyDictGet_eq_alookup", "pyDictSet_eq_ainsert", "pyDictOfList_eq_adict")],
+    ),
+    "C19": dict(
+        module="SymmModel.Gen.TieDict",
+        functions=[f"{h}.coordinations" for h in ("ham_tfim_from_edges", "ham_fermi_hubbard_from_edges",
+                                                  "ham_fermi_hubbard_spinless_from_edges")],
+        theorems=[_G + n for n in ("tfim_coordinations_eq", "fermi_hubbard_coordinations_eq",
+                                   "fermi_hubbard_spinless_coordinations_eq", "tfim_coordination_lookup")],
+    ),
+    "C04": dict(
+        module="SymmModel.Gen.TieFermi",
+        functions=["oddpos_dag"],
+        theorems=[_G + n for n in ("oddpos_dag_generic", "oddpos_dag_eq", "oddpos_dag_involutive")],
+    ),
+    "C16": dict(
+        module="SymmModel.Gen.TieRand",
+        functions=["get_u1_charges"],
+        theorems=[_G + n for n in ("get_u1_charges_eq", "pySortedByLex_eq", "u1_key")],
+    ),
 }
 FUNCTIONS = {k: list(v["functions"]) for k, v in GROUPS.items()}
+FUNCTIONS["C05"] = FUNCTIONS["C05"] + FUNCTIONS.pop("C05b")  # run_tie selects every group that contains one of them
 # functions the translator is asked for but which are outside its subset on the reference tree (no Tie theorem)
-NOT_TIED = ["calc_sub_max_bonds", "dicts_dont_conflict", "calc_fuse_group_info", "AbelianArray.is_valid_sector"]
+NOT_TIED = ["calc_sub_max_bonds", "get_u1u1_charges", "choose_duals", "parse_edges_to_site_info",
+            "resolve_combined_oddpos"]
+HAMS = ("ham_tfim_from_edges", "ham_fermi_hubbard_from_edges", "ham_fermi_hubbard_spinless_from_edges")
 
 
 # ------------------------------------------------------------------------------------ build
@@ -170,7 +214,8 @@ def _run_tie_locked(ctx, functions, groups, timeout):
                 bad = {t: a for t, a in res.items() if a is None or not set(a) <= core.ALLOWED_AXIOMS}
                 logs.append(f"{g['module']}: axiom audit failed: {json.dumps(bad)[:600]}")
         forb = ctx.lean.grep_forbidden([GEN_DIR / n for n in (
-            "Prelude.lean", "PyLemmas.lean", "Src.lean", "Tie.lean", "TieSym.lean", "TieKoszul.lean", "TieUtil.lean")])
+            "Prelude.lean", "PyLemmas.lean", "Src.lean", "Tie.lean", "TieSym.lean", "TieKoszul.lean", "TieUtil.lean",
+            "TieDict.lean", "TieFuse.lean", "TieRand.lean", "TieFermi.lean")])
         if forb:
             proved = False
             logs.append("forbidden tokens: " + "; ".join(forb[:5]))
@@ -263,6 +308,57 @@ def box_cases(func):
         return out
     if func == "argsort":
         return [[list(l)] for n in range(0, 5) for l in itertools.product(range(4), repeat=n)]
+    if func == "dicts_dont_conflict":  # dicts as [[key, value], …] with distinct keys, keys in 0..2, values in 1..2
+        ds = [[]]
+        for n in (1, 2, 3):
+            for ks in itertools.permutations(range(3), n):
+                for vs in itertools.product((1, 2), repeat=n):
+                    ds.append([[k, v] for k, v in zip(ks, vs)])
+        return [[a, b] for a in ds for b in ds if len(a) + len(b) <= 4]
+    if func == "replace_with_seq":
+        out = []
+        for n in range(1, 4):
+            it = [10 * (j + 1) for j in range(n)]
+            for i in range(n):
+                for seq in ([], [7], [7, 8]):
+                    out.append([it, i, seq])
+        return out
+    if func == "calc_fuse_group_info":
+        out = []
+        for ndim in range(1, 5):
+            dual_pats = [[False] * ndim, [bool((j + 1) % 2) for j in range(ndim)], [j >= ndim // 2 for j in range(ndim)]]
+            singles = [list(p) for n in range(1, ndim + 1) for p in itertools.permutations(range(ndim), n)]
+            groupings = [[g] for g in singles]
+            groupings += [[g, h] for g in singles for h in singles if not set(g) & set(h)]
+            if ndim <= 3:
+                groupings += [[g, h, k] for g in singles for h in singles for k in singles
+                              if not set(g) & set(h) and not set(g) & set(k) and not set(h) & set(k)]
+            for gr in groupings:
+                for d in dual_pats[: (3 if ndim <= 3 else 2)]:
+                    out.append([gr, d])
+        return out
+    if func == "AbelianArray.is_valid_sector":
+        out = []
+        for sym, dom, tot in (("Z2", [0, 1], [0, 1]), ("U1", [-1, 0, 2], [-1, 0, 1, 3])):
+            for ndim in range(0, 4):
+                for duals in itertools.product((False, True), repeat=ndim):
+                    for sector in itertools.product(dom, repeat=ndim):
+                        for ch in tot:
+                            out.append([sym, list(duals), ch, list(sector)])
+        return out
+    if func.endswith(".coordinations") and func.split(".")[0] in HAMS:
+        out = [[[]]]
+        pairs = [(a, b) for a in range(4) for b in range(4) if a != b]
+        for n in (1, 2, 3):
+            for es in itertools.combinations(pairs, n):
+                if n < 3 or es[0][0] == 0:
+                    out.append([[list(e) for e in es]])
+        return out[:1200]
+    if func == "get_u1_charges":
+        return [[n] for n in range(0, 14)]
+    if func == "oddpos_dag":  # operators as [label, dual]
+        ops = [[l, d] for l in (1, 2, 3) for d in (False, True)]
+        return [[[]]] + [[list(c)] for n in (1, 2, 3) for c in itertools.product(ops, repeat=n)]
     return []
 
 
@@ -294,7 +390,84 @@ def call_real(func, args):
         from symmray import linalg
 
         return list(linalg.argsort(tuple(args[0])))
+    if func == "dicts_dont_conflict":
+        from symmray import abelian_core as ac
+
+        return bool(ac.dicts_dont_conflict({k: v for k, v in args[0]}, {k: v for k, v in args[1]}))
+    if func == "replace_with_seq":
+        from symmray import abelian_core as ac
+
+        return list(ac.replace_with_seq(tuple(args[0]), args[1], tuple(args[2])))
+    if func == "calc_fuse_group_info":
+        from symmray import abelian_core as ac
+
+        f = getattr(ac.calc_fuse_group_info, "__wrapped__", ac.calc_fuse_group_info)
+        r = f(tuple(tuple(g) for g in args[0]), tuple(args[1]))
+        # (num_groups, group_singlets, new_ndim, perm, position, axes_before, axes_after, ax2group, group_duals,
+        #  new_axes): the components the fuse plan speaks about, container types normalised
+        return (int(r[0]), sorted(int(x) for x in r[1]), int(r[2]), [int(x) for x in r[3]], int(r[4]),
+                [int(x) for x in r[5]], [int(x) for x in r[6]], [bool(x) for x in r[8]])
+    if func == "AbelianArray.is_valid_sector":
+        import types
+
+        sym, duals, ch, sector = args
+        fake = types.SimpleNamespace(symmetry=sr.get_symmetry(sym), charge=ch,
+                                     _indices=tuple(types.SimpleNamespace(dual=d) for d in duals))
+        fake.indices = fake._indices
+        return bool(sr.AbelianArray.is_valid_sector(fake, tuple(sector)))
+    if func.endswith(".coordinations") and func.split(".")[0] in HAMS:
+        return _real_coordinations(func.split(".")[0], [tuple(e) for e in args[0]])
+    if func == "get_u1_charges":
+        from symmray import utils
+
+        return [int(c) for c in utils.get_u1_charges(args[0])]
+    if func == "oddpos_dag":
+        from symmray import fermionic_core as fc
+        from symmray.fermionic_local_operators import FermionicOperator
+
+        return [(r.label, bool(r.dual)) for r in fc.oddpos_dag(tuple(FermionicOperator(l, d) for l, d in args[0]))]
     raise KeyError(func)
+
+
+class _Term:
+    """stand-in for a local Hamiltonian term: records the coordinations the builder was given"""
+
+    def __init__(self, coordinations):
+        self.coordinations = tuple(int(c) for c in coordinations)
+
+    def copy(self, *a, **k):
+        return _Term(self.coordinations)
+
+    def apply_to_arrays(self, fn):
+        pass
+
+
+def _real_coordinations(ham, edges):
+    """the coordinations the real `ham_*_from_edges` passes to its local-term builder, per edge: the builders are
+    replaced by a recorder for the duration of the call (robust to every rewrite of the counting itself)"""
+    import symmray.fermionic_local_operators as flo
+    import symmray.hamiltonians as hm
+
+    rec = lambda *a, coordinations=(1, 1), **k: _Term(coordinations)  # noqa
+    saved = [(hm, "tfim_local_array", getattr(hm, "tfim_local_array", None)),
+             (flo, "fermi_hubbard_local_array", getattr(flo, "fermi_hubbard_local_array", None)),
+             (flo, "fermi_hubbard_spinless_local_array", getattr(flo, "fermi_hubbard_spinless_local_array", None))]
+    try:
+        for mod, name, old in saved:
+            if old is not None:
+                setattr(mod, name, rec)
+        terms = getattr(hm, ham)("Z2", edges)
+    finally:
+        for mod, name, old in saved:
+            if old is not None:
+                setattr(mod, name, old)
+    return sorted((tuple(e), tuple(t.coordinations)) for e, t in terms.items())
+
+
+def _coord_obs(edges, table):
+    """model / translation side: the table site -> count as the per-edge observation of `_real_coordinations`"""
+    t = {k: v for k, v in table}
+    return sorted({(tuple(e), (t.get(e[0]), t.get(e[1]))) for e in (tuple(x) for x in edges)})
 
 
 def oracle(func, args):
@@ -323,12 +496,55 @@ def oracle(func, args):
     if func == "argsort":
         l = args[0]
         return lambda r: sorted(r) == list(range(len(l))) and all(l[r[i]] <= l[r[i + 1]] for i in range(len(r) - 1))
+    if func == "dicts_dont_conflict":  # no key in common with different values
+        da, db = dict(map(tuple, args[0])), dict(map(tuple, args[1]))
+        return not any(da[k] != db[k] for k in set(da) & set(db))
+    if func == "replace_with_seq":
+        it, i, seq = args
+        return [x for j, x in enumerate(it) if j < i] + list(seq) + [x for j, x in enumerate(it) if j > i]
+    if func == "calc_fuse_group_info":
+        groups, duals = args
+        ndim = len(duals)
+        grouped = [ax for g in groups for ax in g]
+        pos = min(grouped)
+        before = [ax for ax in range(ndim) if ax < pos and ax not in grouped]
+        after = [ax for ax in range(ndim) if ax >= pos and ax not in grouped]
+        return (len(groups), [g for g, ga in enumerate(groups) if len(ga) == 1], ndim - len(grouped) + len(groups),
+                before + grouped + after, pos, before, after, [bool(duals[ga[0]]) for ga in groups])
+    if func == "AbelianArray.is_valid_sector":
+        from .props import c17
+
+        sym, duals, ch, sector = args
+        return c17.o_combine(sym, [c17.o_sign(sym, c, d) for c, d in zip(sector, duals)]) == ch
+    if func.endswith(".coordinations") and func.split(".")[0] in HAMS:
+        edges = [tuple(e) for e in args[0]]
+        deg = lambda v: sum((e[0] == v) + (e[1] == v) for e in edges)  # noqa
+        return sorted({(e, (deg(e[0]), deg(e[1]))) for e in edges})
+    if func == "get_u1_charges":  # the n charges closest to the origin, the positive one first
+        return [((k + 1) // 2) * (1 if k % 2 else -1) for k in range(args[0])]
+    if func == "oddpos_dag":  # the conjugate of a product of operators: reversed order, each one conjugated
+        n = len(args[0])
+        return [(args[0][n - 1 - j][0], not args[0][n - 1 - j][1]) for j in range(n)]
     raise KeyError(func)
+
+
+BOOL_VALUED = ("dicts_dont_conflict", "AbelianArray.is_valid_sector")
+
+
+def _post(func, args, v):
+    """bring a value printed by Lean into the shape of the observation of the real code"""
+    if v is None:
+        return None
+    if func.endswith(".coordinations") and func.split(".")[0] in HAMS:
+        return _norm(_coord_obs(args[0], v))
+    return v
 
 
 def _same(func, real, exp):
     if func.endswith(".valid"):
         return isinstance(real, (bool, int)) and bool(real) == bool(exp)
+    if func in BOOL_VALUED:
+        return isinstance(real, bool) and isinstance(exp, bool) and real == exp
     if isinstance(real, bool) or isinstance(exp, bool):
         return False
     return isinstance(real, tuple) == isinstance(exp, tuple) and real == exp
@@ -339,6 +555,11 @@ def _same(func, real, exp):
 _LEAN_HEAD = """import Lean.Data.Json
 import SymmModel.Model.Sym
 import SymmModel.Model.Trunc
+import SymmModel.Model.Check
+import SymmModel.Model.Fuse
+import SymmModel.Model.Ham
+import SymmModel.Model.Rand
+import SymmModel.Model.Fermi
 %(import_src)s
 open Lean SymmModel
 
@@ -351,10 +572,15 @@ def gLP (j : Json) : List (Int × Int) := (gA j).map gP
 def e1 (c : Int) : Charge := (c, 0)
 def b2i (b : Bool) : Int := if b then 1 else 0
 def nAx (n : Nat) (ax : Int) : Nat := (Int.fmod ax n).toNat
+def tup (l : List String) : String := "(" ++ ", ".intercalate l ++ ")"
+def gOps (j : Json) : List (Int × Bool) := (gA j).map (fun p => (gI ((gA p).getD 0 Json.null), gB ((gA p).getD 1 Json.null)))
+def gE (j : Json) : List (Nat × Nat) := (gLP j).map (fun p => (p.1.toNat, p.2.toNat))
 
 def evalOne (f : String) (a : List Json) : String × String :=
   let a0 := a.getD 0 Json.null
   let a1 := a.getD 1 Json.null
+  let a2 := a.getD 2 Json.null
+  let a3 := a.getD 3 Json.null
   match f with
 %(cases)s
   | _ => ("?", "?")
@@ -410,6 +636,36 @@ def _lean_case(func, gen_ok):
     if func == "argsort":
         return ('  | "argsort" => (toString (argsortNat ((gL a0).map Int.toNat)), '
                 + g("toString (Gen.argsort (gL a0))") + ")")
+    if func == "dicts_dont_conflict":
+        return ('  | "dicts_dont_conflict" => (toString (Check.dictsDontConflict (fun (x y : Int) => x != y) (gLP a0) (gLP a1)), '
+                + g("toString (Gen.dicts_dont_conflict (gLP a0) (gLP a1))") + ")")
+    if func == "replace_with_seq":
+        return ('  | "replace_with_seq" => (toString (replaceWithSeq (gL a0) (gI a1).toNat (gL a2)), '
+                + g("toString (Gen.replace_with_seq (gL a0) (gI a1) (gL a2))") + ")")
+    if func == "calc_fuse_group_info":
+        return ('  | "calc_fuse_group_info" =>\n'
+                "    let m := calcFuseGroupInfo ((gA a0).map (fun g => (gL g).map Int.toNat)) ((gA a1).map gB)\n"
+                + ("    let r := Gen.calc_fuse_group_info ((gA a0).map gL) ((gA a1).map gB)\n" if gen_ok else "")
+                + "    (tup [toString m.numGroups, toString m.singlets, toString m.newNdim, toString m.perm, "
+                "toString m.position, toString m.axesBefore, toString m.axesAfter, toString m.groupDuals], "
+                + g("tup [toString r.1, toString r.2.1, toString r.2.2.1, toString r.2.2.2.1, toString r.2.2.2.2.1, "
+                    "toString r.2.2.2.2.2.1, toString r.2.2.2.2.2.2.1, toString r.2.2.2.2.2.2.2.2.1]") + ")")
+    if func == "AbelianArray.is_valid_sector":
+        return ('  | "AbelianArray.is_valid_sector" =>\n'
+                '    let s : Sym := if (a0.getStr?.toOption.getD "") == "Z2" then .Z2 else .U1\n'
+                "    let duals := (gA a1).map gB\n"
+                "    let sec := (gL a3).map e1\n"
+                "    (toString (Arr.sectorCharge s duals sec == e1 (gI a2)), "
+                + g("toString (Gen.AbelianArray.is_valid_sector (fun c d => Sym.sign s c d) (fun cs => Sym.combine s cs) "
+                    "duals (e1 (gI a2)) id sec)") + ")")
+    if func.endswith(".coordinations") and func.split(".")[0] in HAMS:
+        return (f'  | "{func}" => (toString (coordTable (gE a0)), ' + g(f"toString (Gen.{func} (gE a0))") + ")")
+    if func == "oddpos_dag":
+        return ('  | "oddpos_dag" => (toString (Arr.oddposDag (gOps a0)), '
+                + g("toString (Gen.oddpos_dag (fun (p : Int × Bool) => (p.1, !p.2)) (gOps a0))") + ")")
+    if func == "get_u1_charges":
+        return ('  | "get_u1_charges" => (toString (Rand.u1Charges (gI a0).toNat), '
+                + g("toString (Gen.get_u1_charges (gI a0))") + ")")
     return None
 
 
@@ -507,7 +763,7 @@ def _search(ctx, suspects, rep, status):
         model = gen = None
         if lean_rows is not None:
             model, gen, has_gen = lean_rows[k]
-            model, gen = _norm(model), _norm(gen)
+            model, gen = _post(f, a, _norm(model)), _post(f, a, _norm(gen))
             if raised is None and model is not None and not _same(f, real, model):
                 nreal_model += 1
             if has_gen and gen != model:
@@ -542,7 +798,7 @@ def _search(ctx, suspects, rep, status):
 if __name__ == "__main__":  # python -m harness.tie [C17|C03|C13 ...]: stand-alone run, prints the status
     import sys
 
-    ids = [a for a in sys.argv[1:] if a in GROUPS] or list(GROUPS)
+    ids = [a for a in sys.argv[1:] if a in FUNCTIONS] or list(FUNCTIONS)
     ctx = core.Ctx("TIE", "quick", 0)
     sys.path.insert(0, str(core.REPO))
     ctx.lean.build_ok = core.DRV.exists()
